@@ -26,10 +26,10 @@ LikeValue     == LikeValueOK(s)
 \* one printable character per class (no quote / backslash so that the TLC output line needs no unescaping)
 Code == [bs |-> "B", sq |-> "Q", dq |-> "D", nul |-> "Z", nl |-> "N", cr |-> "R", bsp |-> "P", tab |-> "T",
          sub |-> "S", pct |-> "%", us |-> "_", dash |-> "-", slash |-> "/", star |-> "*", hash |-> "#",
-         semi |-> ";", hi |-> "H", bad |-> "X", a |-> "a", c0 |-> "0", c1 |-> "1", n |-> "n", r |-> "r",
+         semi |-> ";", hi |-> "H", bad |-> "X", a |-> "a", bt |-> "K", c0 |-> "0", c1 |-> "1", n |-> "n", r |-> "r",
          b |-> "b", t |-> "t", x |-> "x", ctl |-> "C", ANY |-> "A", ONE |-> "O", ERR |-> "E"]
 Weight == [bs |-> 1, sq |-> 2, dq |-> 3, nul |-> 4, nl |-> 5, cr |-> 6, bsp |-> 7, tab |-> 8, sub |-> 9, pct |-> 10,
-           us |-> 11, dash |-> 12, slash |-> 13, star |-> 14, hash |-> 15, semi |-> 16, hi |-> 17, bad |-> 18, a |-> 19]
+           us |-> 11, dash |-> 12, slash |-> 13, star |-> 14, hash |-> 15, semi |-> 16, hi |-> 17, bad |-> 18, a |-> 19, bt |-> 20]
 
 RECURSIVE Str(_)
 Str(q) == IF q = <<>> THEN "" ELSE Code[Head(q)] \o Str(Tail(q))
